@@ -131,7 +131,7 @@ def cwOf (x : Walk.CfiIn) (o : Walk.CfiOut) (instr modBase : Nat) : CfiStackWalk
     callerCtx := stateOf x.arch o.ctx
     callerValidity := o.valid
     moduleBase := modBase
-    stack := { base := x.mem.base, bytes := x.mem.bytes.toList, bigEndian := false } }
+    stack := { base := x.mem.base, bytes := x.mem.bytes.toList, bigEndian := x.mem.be } }
 
 theorem cwOf_validityWf (x : Walk.CfiIn) (o : Walk.CfiOut) (instr modBase : Nat)
     (hvalid : ValidWf x.arch x.callee) :
